@@ -32,7 +32,10 @@ def main(argv):
     except ValueError:
         seed = 0
     try:
-        from . import adapter, runner
+        from . import runner
+        if not replay_path:
+            runner.start_pool()  # fork the workers while this process is still small
+        from . import adapter
         adapter.warm_parser()
         mod = importlib.import_module("vf.checks." + prop.lower())
         replay = None
@@ -45,6 +48,7 @@ def main(argv):
         R.rule = getattr(mod, "RULE", "")
         R.assumptions = list(getattr(mod, "ASSUMPTIONS", []))
         mod.run(R)
+        runner.stop_pool()
         return R.finish()
     except SystemExit:
         raise
